@@ -334,11 +334,10 @@ pub fn flate_decode(data: &[u8], params: &LZWFlateParams) -> Result<Vec<u8>> {
     }
 }
 fn flate_encode(data: &[u8]) -> Vec<u8> {
-    use libflate::deflate::Encoder;
-    let mut encoded = Vec::new();
-    let mut encoder = Encoder::new(&mut encoded);
+    use libflate::zlib::Encoder;
+    let mut encoder = Encoder::new(Vec::new()).unwrap();
     encoder.write_all(data).unwrap();
-    encoded
+    encoder.finish().into_result().unwrap()
 }
 
 pub fn dct_decode(data: &[u8], _params: &DCTDecodeParams) -> Result<Vec<u8>> {
